@@ -250,8 +250,8 @@ Fixpoint eval_expr (fuel : nat) (s : pool) (e : expr) {struct fuel} : res expr +
                                    end
                                end
                            end) tests;
-              (* ov.sort(); ov.reverse(): descending offset *)
-              let ovd := rev ov in   (* tests are generated in ascending i, hence ov is ascending *)
+              (* ov.sort(): ascending offset (tests are generated in ascending i, hence ov already is) *)
+              let ovd := ov in
               dox out <- (fix go (l : list (Z * (expr * expr))) (out : list slot) : res (list slot) + xerr :=
                             match l with
                             | [] => okx out
@@ -264,7 +264,7 @@ Fixpoint eval_expr (fuel : nat) (s : pool) (e : expr) {struct fuel} : res expr +
                                 else
                                   let m := Z.min (w - off * 8) (size cell) in
                                   dox ee <- lift (simpF (ESlice v (- off * 8) m));
-                                  go r (out ++ [(ee, off_base, off_base + size ee)])%list
+                                  go r (out ++ [(ee, 0, size ee)])%list
                             end) ovd [];
               match out with
               | [] => okx (EMem a_val w None)
